@@ -253,6 +253,10 @@ def main(spec, check_file, argv=None):
     except HarnessError as e:
         print(f"HARNESS-ERROR property={prop}: {e}")
         return report.EXIT_HARNESS
+    except Exception:  # never let a harness bug look like a verdict
+        print(f"HARNESS-ERROR property={prop}: unexpected exception\n"
+              + traceback.format_exc())
+        return report.EXIT_HARNESS
 
 
 def _replay(spec, path):
